@@ -386,6 +386,16 @@ def run(scn, want=(), fault=None, script=None, fit_faults=None, probe_limit=True
         tr.fit_count += 1
         if fit_faults and i in fit_faults:
             tr.events.append(dict(type="fit_fault", i=i, phase=tr.phase))
+            # a real failure happens in the factorisations, i.e. after fit() has stored the new data in the GP
+            X, y, s2 = (list(a) + [None] * 3)[:3]
+            X, y, s2 = k.get("X", X), k.get("y", y), k.get("s2", s2)
+            X, y, s2 = self._convert_shapes(X, y, s2)
+            if X is not None:
+                self.X = X
+            if y is not None:
+                self.y = y
+            if s2 is not None:
+                self.s2 = s2
             raise np.linalg.LinAlgError(f"injected GP.fit failure #{i}")
         return orig_fit(self, *a, **k)
 
